@@ -2,6 +2,9 @@
 package c06
 
 import (
+	"strings"
+	"path/filepath"
+	"os"
 	"encoding/asn1"
 	"crypto/x509/pkix"
 	"bytes"
@@ -127,12 +130,62 @@ type Case struct {
 	SlotDates string
 	// DevExt: extra extensions of the device certificate (see deviceCertExt)
 	DevExt string
+	// Ctor: "" = NewAttestorWithCAPool | files = NewAttestor with the pool's roots written to two PEM files
+	Ctor string
 }
 
 var (
 	certMu    sync.Mutex
 	certCache = map[string]*x509.Certificate{}
 )
+
+var (
+	hostStoreOnce sync.Once
+	hostStoreDir  string
+)
+
+// hostTrustStore makes the "foreign" CA the only CA this process's host trust store contains
+// (crypto/x509 reads SSL_CERT_FILE / SSL_CERT_DIR when it first needs the system roots): a device
+// certificate issued by it stands for one issued by some publicly trusted CA that is not configured.
+func hostTrustStore() string {
+	hostStoreOnce.Do(func() {
+		d, err := os.MkdirTemp("", "vc06")
+		if err != nil {
+			return
+		}
+		hostStoreDir = d
+		os.Mkdir(filepath.Join(d, "empty"), 0o755)
+		os.WriteFile(filepath.Join(d, "host.pem"), vh.PEMCert(rootCert("foreign").Raw), 0o644)
+		os.Setenv("SSL_CERT_FILE", filepath.Join(d, "host.pem"))
+		os.Setenv("SSL_CERT_DIR", filepath.Join(d, "empty"))
+	})
+	return hostStoreDir
+}
+
+// rootFiles writes the pool's roots into the two PEM files NewAttestor takes (the first root alone
+// in the first file, the rest - or the first again - in the second).
+func rootFiles(pool []string) (string, string, error) {
+	d := hostTrustStore()
+	if d == "" {
+		return "", "", fmt.Errorf("no temp dir")
+	}
+	name := strings.Join(pool, "+")
+	f1, f2 := filepath.Join(d, name+".piv.pem"), filepath.Join(d, name+".u2f.pem")
+	if _, err := os.Stat(f2); err == nil {
+		return f1, f2, nil
+	}
+	var rest []byte
+	for _, r := range pool[1:] {
+		rest = append(rest, vh.PEMCert(rootCert(r).Raw)...)
+	}
+	if len(rest) == 0 {
+		rest = vh.PEMCert(rootCert(pool[0]).Raw)
+	}
+	if err := os.WriteFile(f1, vh.PEMCert(rootCert(pool[0]).Raw), 0o644); err != nil {
+		return "", "", err
+	}
+	return f1, f2, os.WriteFile(f2, rest, 0o644)
+}
 
 func rootSpec(name string) vh.CertSpec {
 	keys := map[string]string{"rootA": "rsa2048a", "rootB": "p256a", "rootC": "rsa2048b", "foreign": "rsa2048c", "twinA": "rsa2048d"}
@@ -232,6 +285,7 @@ func genCase(t *rapid.T) Case {
 		c.Issuer = rapid.SampledFrom([]string{"self", "foreign", "rootA", "rootB"}).Draw(t, "extIssuer")
 		c.Validity = rapid.SampledFrom([]string{"expired", "future", "ok"}).Draw(t, "extValidity")
 	}
+	c.Ctor = rapid.SampledFrom([]string{"", "", "files"}).Draw(t, "ctor")
 	c.TBS = rapid.SliceOfN(rapid.Byte(), 1, 120).Draw(t, "tbs")
 	h, _ := labelHash(x509.SignatureAlgorithm(c.Algo))
 	if h == "" || h == "any" {
@@ -383,6 +437,7 @@ func buildSignature(c Case) (tbs, sig []byte, err error) {
 }
 
 func exec(c Case) (vh.Outcome, error) {
+	hostTrustStore()
 	algo := x509.SignatureAlgorithm(c.Algo)
 	out := vh.Outcome{Classes: []string{"kind=" + c.Kind, fmt.Sprintf("algo=%d", c.Algo), "issuer=" + c.Issuer, "validity=" + c.Validity, "slotdates=" + c.SlotDates}}
 	tbs, sig, err := buildSignature(c)
@@ -412,6 +467,17 @@ func exec(c Case) (vh.Outcome, error) {
 		slot.NotBefore, slot.NotAfter = time.Now().Add(36*time.Hour), time.Now().Add(40*time.Hour)
 	}
 	at := yubiattest.NewAttestorWithCAPool(pool)
+	if c.Ctor == "files" {
+		out.Classes = append(out.Classes, "ctor=files")
+		f1, f2, ferr := rootFiles(c.Pool)
+		if ferr != nil {
+			return out, nil
+		}
+		var cerr error
+		if at, cerr = yubiattest.NewAttestor(f1, f2); cerr != nil {
+			return out, vh.Errf("NewAttestor refused root files holding %v: %v", c.Pool, cerr)
+		}
+	}
 	var aerr error
 	if perr := vh.Catch(func() { aerr = at.Attest(f9, slot) }); perr != nil {
 		return out, vh.Errf("Attest crashed: %v", perr)
@@ -446,7 +512,7 @@ func exec(c Case) (vh.Outcome, error) {
 	return out, nil
 }
 
-const rule = "the harness owns the device RSA private key and signs arbitrary encoded messages (sig = EM^d mod N): correct form 1 (with NULL) and form 2 (without) for SHA-1/256/384/512; one byte replaced at a position drawn per class (00, 01, first / last / inner padding byte, separator, identifier, digest); shortened padding with shifted tail and garbage; short EM with 0..7 padding bytes; identifier of another hash; digest of other data; single-bit flips of signature and body; arbitrary signature bytes; genuine ECDSA signature under a non-RSA device key. Crossed with every signature-algorithm label 0..20, device key sizes 1024/1025/1031/1536/2047/2048 (3072/4096 in thorough), device certificate issued by a pool root / by a CA outside the pool / self-signed / expired / not yet valid, optionally carrying a vendor extension (Yubico arc, plain or critical) or another unknown critical extension (then only 'accepted => valid chain' is judged), pools of 1..3 roots, slot certificate dated now / inside an expired device certificate's window / in the future / not at all (the chain must be judged at the current time). Oracle: the harness recomputes sig^e mod N itself; for *WithRSA SHA labels Attest = nil iff chain valid now and EM is form 1 or form 2 of the label's digest; DSA/ECDSA labels only-if; everything else must be refused. Non-trivial: every case except 'everything valid, form 1'."
+const rule = "the harness owns the device RSA private key and signs arbitrary encoded messages (sig = EM^d mod N): correct form 1 (with NULL) and form 2 (without) for SHA-1/256/384/512; one byte replaced at a position drawn per class (00, 01, first / last / inner padding byte, separator, identifier, digest); shortened padding with shifted tail and garbage; short EM with 0..7 padding bytes; identifier of another hash; digest of other data; single-bit flips of signature and body; arbitrary signature bytes; genuine ECDSA signature under a non-RSA device key. Crossed with every signature-algorithm label 0..20, device key sizes 1024/1025/1031/1536/2047/2048 (3072/4096 in thorough), device certificate issued by a pool root / by a CA outside the pool / self-signed / expired / not yet valid, optionally carrying a vendor extension (Yubico arc, plain or critical) or another unknown critical extension (then only 'accepted => valid chain' is judged), pools of 1..3 roots handed over as a pool or (a third) as the two PEM files NewAttestor reads - the CA outside the pool is installed as this process's host trust store (SSL_CERT_FILE), i.e. a publicly trusted CA that is not configured -, slot certificate dated now / inside an expired device certificate's window / in the future / not at all (the chain must be judged at the current time). Oracle: the harness recomputes sig^e mod N itself; for *WithRSA SHA labels Attest = nil iff chain valid now and EM is form 1 or form 2 of the label's digest; DSA/ECDSA labels only-if; everything else must be refused. Non-trivial: every case except 'everything valid, form 1'."
 
 func TestC06Attest(t *testing.T) {
 	vh.Run(t, vh.Spec[Case]{Property: "C06", Name: "TestC06Attest", Rule: rule, Gen: genCase, Exec: exec})
